@@ -22,11 +22,11 @@ def c16(tier):
 
 
 def c17(tier):
-    return [R("mbuilder", args={"mode": "misuse"})]
+    return [R("mbuilder", args={"mode": "misuse", "depth": 5} if tier == "thorough" else {"mode": "misuse"})]
 
 
 def c18(tier):
-    return [R("pbuilder")]
+    return [R("pbuilder", args={"depth": 5}) if tier == "thorough" else R("pbuilder")]
 
 
 def c05(tier):
@@ -146,8 +146,8 @@ LEVEL = {
 RULES = {
     "C04": "(a) fitenv: scripts of model answers explored depth-first with deviation bounding (default answer = 'much better, consistent slope'; 30 alternative answers + NaN/inf/Err; script depth 4 quick / 6 thorough, <= 2 / 3 deviations) for every solver configuration (patience {1,2,6,100} x tolerances {default, 1e-3, 0} x step bound {0.1,100} x P {1,2} x seq/par x with/without fault answers); every leaf is one complete real fit; (b) fitgrid: real models (Z1, Z2, Z4, O'Leary) from 7 starts incl. far and sign-flipped ones x 24 solver configurations x weights x noise x S x provenance/flavour/width; non-trivial = successful fits whose final state was fully checked",
     "C05": "complete product grid over the certified families (single decay+offset, two decays+offset with ratio 3/5/10, three decays with ratio 3/5, Gaussian+decay+offset): generating parameters x coefficients x N in {32,64,200} x weights {none, ones, ramp, 1/sigma} x noise {none, 1e-4, 1e-3, 1e-2 (where certified), alternating} x starts truth*(1+-d)^P, d in {0.02,0.05} x S in {1,2,3} x f64/f32 x hand/built x seq/par; every case is one real fit judged by reproduction, wrss <= wrss(truth) and reference-Jacobian stationarity; every case is distinct; non-trivial = fits judged completely",
-    "C18": "every call sequence of length <= L (3 quick, 4 thorough) over observations(rows in {0,1,2,3,4} x cols in {0,1,2,3}), weights(len in {0,1,2,3,4}, all-ones | varied), epsilon(+-1e-2, +-1e-8, 0[, 1e-300, -0]) for the constructors new/new_parallel/mrhs/mrhs_parallel x model output length {0,1,3} x {f64,f32}; the 3-sample model has an exactly diagonal basis diag(1, d2) with d2 = 1e-5 or 0.4375*eps so that the threshold in force is observable in the coefficients; every sequence is a distinct case",
-    "C17": "ops also include Break(slot,len) / Heal, which change which closure misbehaves DURING a history; environment = which of the 6 closures (3 basis functions, 3 derivatives) of a builder-made model returns a vector of wrong length (0, N-1, N+1, 2N), singly, in all pairs with cancelling totals, and two triples; within each environment ALL op sequences up to depth d (3 quick, 4 thorough) over 12 ops: eval, eval_partial_deriv(k) for k in {0,1,P,P+1,usize::MAX}, set_params(good a1|a2), set_params of length 0, P-1, P+1, 2P; every step is compared with the reference (last accepted parameters, exact expected matrices, expected error kind and payload); every sequence counts as distinct and non-trivial",
+    "C18": "every call sequence of length <= L (3 quick, 5 thorough; 3 for the 300-sample model) over observations(rows in {0,1,2,3,4} resp. {n-1,n,n+1,0} x cols in {0,1,2,3}), weights(len likewise, all-ones | varied), epsilon(+-1e-2, +-1e-8, 0[, 1e-300, -0; 0.05, -0.125 for the dense model]) for the constructors new/new_parallel/mrhs/mrhs_parallel x model output length {0,1,3,5,300} x {f64,f32}; the 5-sample model has a dense well conditioned 5x3 basis whose exposed initial coefficients/residuals are compared with the reference least-squares solution; for every accepted sequence the exposed residuals must equal W(Y - Phi C) for the exposed coefficients; the 3-sample model has an exactly diagonal basis diag(1, d2) with d2 = 1e-5 or 0.4375*eps so that the threshold in force is observable in the coefficients; every sequence is a distinct case",
+    "C17": "ops also include Break(slot,len) / Heal, which change which closure misbehaves DURING a history; environment = which of the 6 closures (3 basis functions, 3 derivatives) of a builder-made model returns a vector of wrong length (0, N-1, N+1, 2N), singly, in all pairs with cancelling totals, and two triples; the model has 4, 1 or 0 samples and three basis functions or a single one; within each environment ALL op sequences up to depth d (3 quick, 5 thorough for the 4-sample three-function model, 3 otherwise) over 19 ops (signed-zero parameter vectors included): eval, eval_partial_deriv(k) for k in {0,1,P,P+1,usize::MAX}, set_params(good a1|a2), set_params of length 0, P-1, P+1, 2P; every step is compared with the reference (last accepted parameters, exact expected matrices, expected error kind and payload); every sequence counts as distinct and non-trivial",
     "C16": "case = one builder-made model with injectively tagged closures: model parameter list = every permutation of {a,b,c} and {a,b,c,d}; a function over every ordered subset (arity 1..4) with every order of supplying its derivatives, with an invariant function before/after/absent; pairs of functions over all pairs of ordered subsets; arity 5..10 on a 10-parameter model with every rotation, every transposition of the identity and of a scattered assignment, three derivative orders, three rotations of the model list; f32 and f64; oracle = exact (bitwise) comparison of eval, every eval_partial_deriv, params round-trip and parameters(); every model is distinct and non-trivial",
     "C01": "scenario = (family, N, provenance, f32|f64, seq|par, single|mrhs + observation columns, weight kind, threshold kind, alphabet of 4-9 parameter vectors); within a scenario ALL histories of set_params over the alphabet up to depth d are executed on the live problem (d=2 quick, 3 thorough; C10: 3/4), plus three long deterministic walks per scenario (alphabet cyclically x3, every entry repeated x4, ping-pong; 9n steps) beyond the depth bound; state = everything the LeastSquaresProblem interface exposes (bit patterns of params, residuals, coefficients, Jacobian); non-trivial = distinct reached states whose rank class is decidable (Full or Truncated) and on which the heavy oracle ran",
     "C02": "scenario = (family, N, provenance, f32|f64, seq|par, single|mrhs + observation columns, weight kind, threshold kind, alphabet of 4-9 parameter vectors); within a scenario ALL histories of set_params over the alphabet up to depth d are executed on the live problem (d=2 quick, 3 thorough; C10: 3/4), plus three long deterministic walks per scenario (alphabet cyclically x3, every entry repeated x4, ping-pong; 9n steps) beyond the depth bound; state = everything the LeastSquaresProblem interface exposes (bit patterns of params, residuals, coefficients, Jacobian); non-trivial = distinct reached states whose rank class is decidable (Full or Truncated) and on which the heavy oracle ran",
@@ -161,7 +161,7 @@ RULES = {
     "C12": "case = (family/shape with N from M to M+P+3, width, provenance, weights, one of three solver set-ups that make success independent of the data, build profile) plus a failure at every model call of the statistics phase; non-trivial = statistics code entered (successful fit) and either the identities were checked or the under-determined/faulted case was rejected",
     "C13": "case = (incidence pattern | Z1-Z5, N, weights, noise vector, amplitude, width, provenance[, parallel]); non-trivial = covariance compared entry-wise with the reference AND all reference variances pairwise distinct (ordering observable)",
     "C14": "case = (family, nu = N-M-P in 1..30 and 100, weights, width, provenance) x every p of the alphabet (11 levels incl. values within one ulp of 1 in f32), queried largest-first then ascending so that consecutive fits with different degrees of freedom request the same level back to back; nu in 1..30, 100, 995, 1001, 1201, 5000; non-trivial = fits whose band was compared with the reference table",
-    "C15": "every word new(l).s1..sk.build() with l from 6 parameter lists and s_i from the 26-symbol alphabet, k <= L (L=4 quick, 5 thorough), plus every <=k-edit deviation (insert/delete/substitute/swap over a 58-symbol pool; k=1 quick, 2 thorough) of 10 valid templates; each word is executed on the real builder and on the reference specification automaton; a state is a builder call history (the builder accumulates its history, so the state graph is the word tree); every word counts as distinct and non-trivial",
+    "C15": "every word new(l).s1..sk.build() with l from 6 parameter lists and s_i from the 26-symbol alphabet, k <= L (L=4 quick, 6 thorough), plus every <=k-edit deviation (insert/delete/substitute/swap over a 58-symbol pool; k=1 quick, 2 thorough) of 10 valid templates; each word is executed on the real builder and on the reference specification automaton; a state is a builder call history (the builder accumulates its history, so the state graph is the word tree); every word counts as distinct and non-trivial",
 }
 
 ASSUMPTIONS = {
